@@ -448,7 +448,7 @@ impl Mon {
             }
         }
         let _ = (w, v);
-        let financial = matches!(info.kind, Kind::Deposit | Kind::Withdraw | Kind::Borrow | Kind::Repay | Kind::Liquidate | Kind::HandleBankruptcy | Kind::KaminoDeposit | Kind::KaminoWithdraw | Kind::SolendDeposit | Kind::SolendWithdraw);
+        let financial = matches!(info.kind, Kind::Deposit | Kind::Withdraw | Kind::Borrow | Kind::Repay | Kind::Liquidate | Kind::HandleBankruptcy | Kind::KaminoDeposit | Kind::KaminoWithdraw | Kind::SolendDeposit | Kind::SolendWithdraw | Kind::DriftDeposit | Kind::DriftWithdraw);
         if !financial {
             return;
         }
@@ -465,7 +465,7 @@ impl Mon {
             let bad = match st {
                 BankOperationalState::Paused => true,
                 BankOperationalState::KilledByBankruptcy => true,
-                BankOperationalState::ReduceOnly => matches!(info.kind, Kind::Deposit | Kind::Borrow | Kind::KaminoDeposit | Kind::SolendDeposit),
+                BankOperationalState::ReduceOnly => matches!(info.kind, Kind::Deposit | Kind::Borrow | Kind::KaminoDeposit | Kind::SolendDeposit | Kind::DriftDeposit),
                 BankOperationalState::Operational => false,
             };
             if bad {
